@@ -26,6 +26,15 @@ def run(ctx):
                 jobs.append((exe, [alg, p, ml, 1 if (p != "walk" and (ctx.thorough or (main and p in ("0", "3")))) else 0], "%s" % be))
             for fam in ("aead", "inc"):
                 jobs.append((lpc, [fam, alg, lpcmax if main else 12], "%s" % be))
+    # the masked (and C++ masked) entry points again under other share configurations: their init/finalize paths convert between share counts
+    triples = [t for t in build.ALL_TRIPLES if t != build.DEFAULT_TRIPLE] if ctx.thorough else [(2, 1, 2), (3, 2, 3), (4, 3, 4), (3, 3, 3), (4, 4, 4)]
+    for be in (("asm", "c64", "c32") if ctx.thorough else ("asm",)):
+        for tr in triples:
+            lib = build.build_lib(be, tr)
+            ctx.configs.append(lib["desc"])
+            exe = build.build_prog("c01", ["harness/c01.c", "harness/cpp_shim.cpp", "harness/sysrand.c", "ref/ref.c"], lib)
+            for alg in range(3):
+                jobs.append((exe, [alg, "3", 24 if not ctx.thorough else 40, 0], "%s-k%dd%dm%d" % ((be,) + tr)))
     # longest first
     jobs.sort(key=lambda j: -int(j[1][2]) if str(j[1][2]).isdigit() else 0)
     common.parallel(lambda j: common.run_harness(ctx, j[0], j[1], label=j[2]), jobs)
